@@ -245,6 +245,18 @@ PROGRAMS = [
         ["assign", "<p>x", ["c", "cplx:1j"], []],
         ["assign", "w", ["v", "<p>z"], []],
     ]}},
+    # three phases with different locals of different kinds (per-phase tables must not depend on the presentation order)
+    {"name": "three_phases_locals", "phases": {"primary": [
+        ["call", ["<state>y"], "<func>f", [["v", "<t>"], ["v", "<state>y"]], {}],
+        ["assign", "k1", ["*", ["v", "<dt>"], ["v", "<state>y"]], []],
+    ], "bootstrap": [
+        ["assign", "arr", ["call", "<builtin>array", [["c", 3]], {}], []],
+        ["assign", "k1", ["v", "i"], [["i", ["c", 0], ["c", 3]]]],
+        ["assign", "<p>n", ["call", "<builtin>norm_2", [["v", "arr"]], {}], []],
+    ], "adapt": [
+        ["assign", "flag", ["cmp", "<", ["v", "<p>n"], ["c", 1]], []],
+        ["assign", "z", ["c", "cplx:1j"], []],
+    ]}},
     {"name": "chain", "phases": {"p": [
         ["assign", "d", ["+", ["v", "c"], ["c", 1]], []],
         ["assign", "c", ["+", ["v", "b"], ["c", 1]], []],
@@ -298,8 +310,9 @@ def symbolic_sort(items, tag):
     return [i for i, _ in out], [x for _, x in out]
 
 
-def infer_with_order(prog, phase_order, stmt_orders):
-    """Concrete run of the real SymbolKindFinder with explicit orders."""
+def infer_with_order(prog, phase_order, stmt_orders, front_end=False):
+    """Concrete run of the real SymbolKindFinder with explicit orders; front_end: through the
+    public infer_kinds(dag) on a DAGCode whose phases dict is in the presentation order."""
     import contextlib
     import io
     from dagrt.data import SymbolKindFinder
@@ -316,19 +329,25 @@ def infer_with_order(prog, phase_order, stmt_orders):
 
     def _alarm(signum, frame):
         raise _Hang()
-    old = signal.signal(signal.SIGALRM, _alarm)
-    signal.setitimer(signal.ITIMER_REAL, 5)
+    old = signal.signal(signal.SIGVTALRM, _alarm)     # CPU time, so that machine load does not matter
+    signal.setitimer(signal.ITIMER_VIRTUAL, 5)
     try:
         with contextlib.redirect_stdout(buf):
             try:
-                tbl = SymbolKindFinder(registry())(names, phases)
+                if front_end:
+                    import dagrt.language as L
+                    from dagrt.data import infer_kinds
+                    dag = L.DAGCode({n: L.ExecutionPhase(n, next_phase=n, statements=st) for n, st in zip(names, phases)}, names[0])
+                    tbl = infer_kinds(dag, registry())
+                else:
+                    tbl = SymbolKindFinder(registry())(names, phases)
             except _Hang:
-                return ("err", "inference does not terminate within 5 s", False)
+                return ("err", "inference does not terminate within 5 s of CPU time", False)
             except Exception as e:  # noqa
                 return ("err", type(e).__name__, "trying to derive 'kind'" in buf.getvalue())
     finally:
-        signal.setitimer(signal.ITIMER_REAL, 0)
-        signal.signal(signal.SIGALRM, old)
+        signal.setitimer(signal.ITIMER_VIRTUAL, 0)
+        signal.signal(signal.SIGVTALRM, old)
     return ("ok", table_snapshot(tbl), "trying to derive 'kind'" in buf.getvalue())
 
 
@@ -340,10 +359,12 @@ def harness_infer(prog):
         for n in pnames:
             o, _ = symbolic_sort(prog["phases"][n], "st_" + n)
             sorders[n] = o
-        r = infer_with_order(prog, porder, sorders)
+        # entry point: SymbolKindFinder called directly (as the Fortran generator does) | the infer_kinds(dag) front end
+        front = bool(ex.branch(z3.Bool("entry_infer_kinds"))) if len(pnames) > 1 else False
+        r = infer_with_order(prog, porder, sorders, front_end=front)
         if "does not terminate" in str(r[1]):
             ex.abort_all = True      # one witness is enough; every further order would cost another 5 s
-        return {"phase_order": porder, "stmt_orders": sorders, "result": r}
+        return {"phase_order": porder, "stmt_orders": sorders, "front_end": front, "result": r}
     return h
 
 
@@ -371,14 +392,15 @@ def work_infer(item):
             for trail, r in res:
                 if "does not terminate" in str(r["result"][1]):
                     bad = r
-                    base = {"phase_order": r["phase_order"], "stmt_orders": r["stmt_orders"], "result": ("ok", "a table")}
+                    base = {"phase_order": r["phase_order"], "stmt_orders": r["stmt_orders"], "front_end": r.get("front_end", False), "result": ("ok", "a table")}
                     break
         if bad is None:
             stats.discharged += 1
         else:
             stats.refuted += 1
-            cands.append({"part": "infer", "program": prog, "order_a": {"phase_order": base["phase_order"], "stmt_orders": base["stmt_orders"]},
-                          "order_b": {"phase_order": bad["phase_order"], "stmt_orders": bad["stmt_orders"]}})
+            cands.append({"part": "infer", "program": prog,
+                          "order_a": {"phase_order": base["phase_order"], "stmt_orders": base["stmt_orders"], "front_end": base.get("front_end", False)},
+                          "order_b": {"phase_order": bad["phase_order"], "stmt_orders": bad["stmt_orders"], "front_end": bad.get("front_end", False)}})
         if len(samples) < 2:
             samples.append({"program": prog["name"], "order_paths": len(res), "result": base["result"][0]})
     tr.stop()
@@ -420,6 +442,14 @@ def random_program(rng, idx):
             op = rng.choice(["+", "*"])
             stmts.append(["assign", tgt, [op, ["v", a], ["v", b]], []])
             pool[tgt] = "?"
+    if rng.random() < 0.4 and len(stmts) >= 3:
+        # the same statements spread over 2-3 phases (names not in sorted presentation order)
+        pn = rng.sample(["primary", "bootstrap", "adapt"], rng.choice([2, 3]))
+        phases = {n: [] for n in pn}
+        phases[pn[0]].append(stmts[0])
+        for st in stmts[1:]:
+            phases[rng.choice(pn)].append(st)
+        return {"name": "rand%d" % idx, "phases": {n: v for n, v in phases.items() if v}}
     return {"name": "rand%d" % idx, "phases": {"p": stmts}}
 
 
@@ -455,8 +485,8 @@ def replay(d):
                 % (ks[0], ks[1], ks[2], left, ks[0], ks[1], ks[2], right)}
     prog = d["program"]
     oa, ob = d["order_a"], d["order_b"]
-    ra = infer_with_order(prog, oa["phase_order"], {k: v for k, v in oa["stmt_orders"].items()})
-    rb = infer_with_order(prog, ob["phase_order"], {k: v for k, v in ob["stmt_orders"].items()})
+    ra = infer_with_order(prog, oa["phase_order"], {k: v for k, v in oa["stmt_orders"].items()}, front_end=oa.get("front_end", False))
+    rb = infer_with_order(prog, ob["phase_order"], {k: v for k, v in ob["stmt_orders"].items()}, front_end=ob.get("front_end", False))
     hang = "does not terminate" in str(ra[1]) or "does not terminate" in str(rb[1])
     return {"reproduced": ra[:2] != rb[:2] or hang, "unification_failure_printed": bool(ra[2] or rb[2]),
             "detail": "program %s: order %s gives %s; order %s gives %s" % (prog["name"], oa, ra[:2], ob, rb[:2])}
